@@ -322,6 +322,39 @@ CHECKS = {
              'LOGINDISABLED, never a change of identity afterwards.',
         note='refusing valid credentials is counted, not a violation; lenient '
              'base64 readings that verify are latitude'),
+    'C10': dict(
+        category='exploration', design='4/C10',
+        technique='runtime monitor: reference mailbox model (a relation where '
+                  'the RFC leaves latitude) stepped next to the real server, '
+                  'full dump compared after every step',
+        text='Single-session programs of 5-25 commands over APPEND (flags, '
+             'date-time, {n}/{n+}), STORE [+-]FLAGS[.SILENT], EXPUNGE, UID '
+             'EXPUNGE, COPY, MOVE, 27 FETCH items (seen-setting and peeking), '
+             'CLOSE, SELECT/EXAMINE and commands that must be refused, with '
+             "all sequence-set shapes (*, reversed, out of range, duplicates, "
+             'UID sets naming expunged UIDs) and keywords; dict, maildir and '
+             'maildir with a keywords file; a quarter of the cases run the '
+             'server in a non-UTC zone; after every step condition, untagged '
+             'responses and a dump (order, content id, UID stability, size, '
+             'date, flags) must match the model.',
+        note='\\Recent and absolute UID values excluded (C17, C04 own them); '
+             'latitudes are documented and counted'),
+    'C11': dict(
+        category='exploration', design='4/C11',
+        technique='runtime monitor: reference name set + independent glob '
+                  'matcher (dynamic program, no re) + content dumps, compared '
+                  'after every step',
+        text='Programs of 4-20 CREATE/DELETE/RENAME/SUBSCRIBE/UNSUBSCRIBE/'
+             'STATUS/SELECT/APPEND steps over hierarchical, INBOX-variant, '
+             'wildcard, quote, newline, non-ASCII names on dict, maildir ++ '
+             'and maildir fs; after every step the tagged condition, LIST "" '
+             '*, LSUB "" *, three hostile reference/pattern probes, '
+             '\\Noselect/\\HasChildren truthfulness and content dumps '
+             '(messages, UIDs, UIDVALIDITY across RENAME) are compared with '
+             'the model; NO must change nothing.',
+        note="'.' inside a name part on maildir ++ aliases with the on-disk "
+             'delimiter and is kept out of generated names; ten RFC '
+             'latitudes are allowed sets and counted'),
 }
 
 NOT_YET = 'check not built yet in this round (see DESIGN.md section 4)'
